@@ -67,6 +67,26 @@ _da_temp_zero_column_name = "_da_temp_zero_column"
 _da_temp_one_column_name = "_da_temp_one_column"
 
 
+def _unused_column_name(base: str, taken) -> str:
+    """
+    Name for a scratch column: base, prefixed until it is none of the names in use.
+    """
+    name = base
+    while name in taken:
+        name = "_" + name
+    return name
+
+
+def _unused_column_suffix(base: str, columns, taken) -> str:
+    """
+    Suffix for scratch copies of columns: base, extended until no suffixed column name is in use.
+    """
+    suffix = base
+    while any((c + suffix) in taken for c in columns):
+        suffix = suffix + "_"
+    return suffix
+
+
 class PolarsTerm:
     """
     Class to carry Polars expression term and annotations about expression tree.
@@ -188,14 +208,20 @@ class ExpressionRequirementsCollector(data_algebra.expression_walker.ExpressionW
         if op.op in self._collect_required:
             self.collect_required = True
 
-    def add_in_temp_columns(self, temp_v_columns: List):
+    def add_in_temp_columns(self, temp_v_columns: List, *, names_in_use: Set[str]) -> str:
         """
-        Add required temp columns to temp_v_columns_list
+        Add required temp columns to temp_v_columns_list, named away from names_in_use (which is updated).
+        Returns the name of the column of ones.
         """
+        zero_column_name = _unused_column_name(_da_temp_zero_column_name, names_in_use)
+        names_in_use.add(zero_column_name)
+        one_column_name = _unused_column_name(_da_temp_one_column_name, names_in_use)
+        names_in_use.add(one_column_name)
         if self.zero_constant_required:
-            temp_v_columns.append(_build_lit(0).alias(_da_temp_zero_column_name))
+            temp_v_columns.append(_build_lit(0).alias(zero_column_name))
         if self.one_constant_required:
-            temp_v_columns.append(_build_lit(1).alias(_da_temp_one_column_name))
+            temp_v_columns.append(_build_lit(1).alias(one_column_name))
+        return one_column_name
 
 
 def _unpack_lits(v):
@@ -229,33 +255,35 @@ def _missing_if_any_missing(args, res):
     return pl.when(pl.any_horizontal(is_missing)).then(None).otherwise(res)
 
 
-def _populate_expr_impl_map(extend_context: bool) -> Dict[int, Dict[str, Callable]]:
+def _populate_expr_impl_map(
+    extend_context: bool, *, one_column_name: str = _da_temp_one_column_name
+) -> Dict[int, Dict[str, Callable]]:
     """
-    Map symbols to implementations.
+    Map symbols to implementations. one_column_name: name of the scratch column of ones counts are taken from.
     """
     assert isinstance(extend_context, bool)
     # TODO: fill in more
     if extend_context:
         impl_map_0 = {
-            "count": lambda: pl.col(_da_temp_one_column_name).cumsum(),  # ugly SQL def
-            "_count": lambda: pl.col(_da_temp_one_column_name).cumsum(),  # ugly SQL def
-            "cumcount": lambda: pl.col(_da_temp_one_column_name).cumsum(),
-            "_cumcount": lambda: pl.col(_da_temp_one_column_name).cumsum(),
-            "row_number": lambda: pl.col(_da_temp_one_column_name).cumsum(),
-            "_row_number": lambda: pl.col(_da_temp_one_column_name).cumsum(),
-            "size": lambda: pl.col(_da_temp_one_column_name).sum(),
-            "_size": lambda: pl.col(_da_temp_one_column_name).sum(),
+            "count": lambda: pl.col(one_column_name).cumsum(),  # ugly SQL def
+            "_count": lambda: pl.col(one_column_name).cumsum(),  # ugly SQL def
+            "cumcount": lambda: pl.col(one_column_name).cumsum(),
+            "_cumcount": lambda: pl.col(one_column_name).cumsum(),
+            "row_number": lambda: pl.col(one_column_name).cumsum(),
+            "_row_number": lambda: pl.col(one_column_name).cumsum(),
+            "size": lambda: pl.col(one_column_name).sum(),
+            "_size": lambda: pl.col(one_column_name).sum(),
         }
     else:
         impl_map_0 = {
-            "count": lambda: pl.col(_da_temp_one_column_name).sum(),
-            "_count": lambda: pl.col(_da_temp_one_column_name).sum(),
-            "cumcount": lambda: pl.col(_da_temp_one_column_name).sum(),
-            "_cumcount": lambda: pl.col(_da_temp_one_column_name).sum(),
-            "row_number": lambda: pl.col(_da_temp_one_column_name).sum(),
-            "_row_number": lambda: pl.col(_da_temp_one_column_name).sum(),
-            "size": lambda: pl.col(_da_temp_one_column_name).sum(),
-            "_size": lambda: pl.col(_da_temp_one_column_name).sum(),
+            "count": lambda: pl.col(one_column_name).sum(),
+            "_count": lambda: pl.col(one_column_name).sum(),
+            "cumcount": lambda: pl.col(one_column_name).sum(),
+            "_cumcount": lambda: pl.col(one_column_name).sum(),
+            "row_number": lambda: pl.col(one_column_name).sum(),
+            "_row_number": lambda: pl.col(one_column_name).sum(),
+            "size": lambda: pl.col(one_column_name).sum(),
+            "_size": lambda: pl.col(one_column_name).sum(),
         }
     impl_map_1 = {
         "+": lambda x: x,
@@ -325,7 +353,7 @@ def _populate_expr_impl_map(extend_context: bool) -> Dict[int, Dict[str, Callabl
         "sign": lambda x: x.sign(),
         "sin": lambda x: x.sin(),
         "sinh": lambda x: x.sinh(),
-        "size": lambda x: pl.col(_da_temp_one_column_name).sum(),
+        "size": lambda x: pl.col(one_column_name).sum(),
         "sqrt": lambda x: x.sqrt(),
         "std": lambda x: x.std(),
         "sum": lambda x: x.sum(),
@@ -398,6 +426,7 @@ class PolarsExpressionActor(data_algebra.expression_walker.ExpressionWalker):
         extend_context: bool = False,
         project_context: bool = False,
         partition_by: Optional[Iterable[str]] = None,
+        expr_impl_map: Optional[Dict[int, Dict[str, Callable]]] = None,
     ) -> None:
         assert isinstance(extend_context, bool)
         assert isinstance(project_context, bool)
@@ -408,6 +437,7 @@ class PolarsExpressionActor(data_algebra.expression_walker.ExpressionWalker):
         self.polars_model = polars_model
         self.extend_context = extend_context
         self.project_context = project_context
+        self.expr_impl_map = expr_impl_map  # step-specific map (scratch column renamed), or None
         assert not isinstance(partition_by, str)  # common error
         if partition_by is None:
             partition_by = []
@@ -516,7 +546,9 @@ class PolarsExpressionActor(data_algebra.expression_walker.ExpressionWalker):
                 )
         if f is None:
             try:
-                if self.extend_context:
+                if self.expr_impl_map is not None:
+                    f = self.expr_impl_map[len(values)][op.op]
+                elif self.extend_context:
                     f = self.polars_model.extend_expr_impl_map[len(values)][op.op]
                 elif self.project_context:
                     f = self.polars_model.project_expr_impl_map[len(values)][op.op]
@@ -710,11 +742,12 @@ class PolarsModel(data_algebra.data_model.DataModel):
         # get rid of some corner cases
         if len(column_names) < 1:
             return False
+        count_name = _unused_column_name("_da_count_tmp", set(column_names))
         mx = (
             table.select(column_names)
-            .with_columns([pl.lit(1, pl.Int64).alias("_da_count_tmp")])
+            .with_columns([pl.lit(1, pl.Int64).alias(count_name)])
             .group_by(column_names)
-            .sum()["_da_count_tmp"]
+            .sum()[count_name]
             .max()
         )
         return mx <= 1
@@ -867,16 +900,28 @@ class PolarsModel(data_algebra.data_model.DataModel):
         res = self._compose_polars_ops(op.sources[0], data_map=data_map)
         partition_by = op.partition_by
         temp_v_columns = []
+        # scratch columns must not collide with the frame's columns or the columns produced
+        names_in_use = set(op.columns_produced())
         # see if we need to make partition non-empty
         if (partition_by is None) or (len(partition_by) <= 0):
-            v_name = "_da_extend_temp_partition_column"
+            v_name = _unused_column_name(
+                "_da_extend_temp_partition_column", names_in_use
+            )
+            names_in_use.add(v_name)
             partition_by = [v_name]
             temp_v_columns.append(_build_lit(1).alias(v_name))
         # pre-scan expressions
         er = ExpressionRequirementsCollector()
         for opk in op.ops.values():
             opk.act_on(None, expr_walker=er)
-        er.add_in_temp_columns(temp_v_columns)
+        one_column_name = er.add_in_temp_columns(
+            temp_v_columns, names_in_use=names_in_use
+        )
+        expr_impl_map = None
+        if one_column_name != _da_temp_one_column_name:
+            expr_impl_map = _populate_expr_impl_map(
+                extend_context=True, one_column_name=one_column_name
+            )
         value_to_send_to_act = None
         if er.collect_required:
             if isinstance(res, pl.LazyFrame):
@@ -891,7 +936,10 @@ class PolarsModel(data_algebra.data_model.DataModel):
                 ):
                     # TODO: move this to leave of nested expressions
                     # promote value to column for uniformity of API
-                    v_name = f"_da_extend_temp_v_column_{len(temp_v_columns)}"
+                    v_name = _unused_column_name(
+                        f"_da_extend_temp_v_column_{len(temp_v_columns)}", names_in_use
+                    )
+                    names_in_use.add(v_name)
                     v_value = opk.args[0].value
                     temp_v_columns.append(_build_lit(v_value).alias(v_name))
                     opk = data_algebra.expr_rep.Expression(
@@ -906,7 +954,10 @@ class PolarsModel(data_algebra.data_model.DataModel):
             fld_k_container = opk.act_on(
                 value_to_send_to_act,
                 expr_walker=PolarsExpressionActor(
-                    polars_model=self, extend_context=True, partition_by=op.partition_by
+                    polars_model=self,
+                    extend_context=True,
+                    partition_by=op.partition_by,
+                    expr_impl_map=expr_impl_map,
                 ),
             )  # PolarsTerm
             assert isinstance(fld_k_container, PolarsTerm)
@@ -954,16 +1005,28 @@ class PolarsModel(data_algebra.data_model.DataModel):
         res = self._compose_polars_ops(op.sources[0], data_map=data_map)
         group_by = op.group_by
         temp_v_columns = []
+        # scratch columns must not collide with the frame's columns or the columns produced
+        names_in_use = set(op.sources[0].columns_produced()).union(op.ops.keys())
         # see if we need to make group_by non-empty
         if len(group_by) <= 0:
-            v_name = "_da_project_temp_group_by_column"
+            v_name = _unused_column_name(
+                "_da_project_temp_group_by_column", names_in_use
+            )
+            names_in_use.add(v_name)
             group_by = [v_name]
             temp_v_columns.append(_build_lit(1).alias(v_name))
         # pre-scan expressions
         er = ExpressionRequirementsCollector()
         for opk in op.ops.values():
             opk.act_on(None, expr_walker=er)
-        er.add_in_temp_columns(temp_v_columns)
+        one_column_name = er.add_in_temp_columns(
+            temp_v_columns, names_in_use=names_in_use
+        )
+        expr_impl_map = None
+        if one_column_name != _da_temp_one_column_name:
+            expr_impl_map = _populate_expr_impl_map(
+                extend_context=False, one_column_name=one_column_name
+            )
         value_to_send_to_act = None
         if er.collect_required:
             if isinstance(res, pl.LazyFrame):
@@ -977,7 +1040,10 @@ class PolarsModel(data_algebra.data_model.DataModel):
             ):
                 # TODO: push this into leaves of nested ops
                 # promote value to column for uniformity of API
-                v_name = f"_da_project_temp_v_column_{len(temp_v_columns)}"
+                v_name = _unused_column_name(
+                    f"_da_project_temp_v_column_{len(temp_v_columns)}", names_in_use
+                )
+                names_in_use.add(v_name)
                 v_value = opk.args[0].value
                 temp_v_columns.append(_build_lit(v_value).alias(v_name))
                 opk = data_algebra.expr_rep.Expression(
@@ -990,7 +1056,9 @@ class PolarsModel(data_algebra.data_model.DataModel):
             fld_k_container = opk.act_on(
                 value_to_send_to_act,
                 expr_walker=PolarsExpressionActor(
-                    polars_model=self, project_context=True
+                    polars_model=self,
+                    project_context=True,
+                    expr_impl_map=expr_impl_map,
                 ),
             )  # PolarsTerm
             assert isinstance(fld_k_container, PolarsTerm)
@@ -1043,33 +1111,36 @@ class PolarsModel(data_algebra.data_model.DataModel):
         )
         on_a = list(op.on_a)
         on_b = list(op.on_b)
+        # scratch names and suffixes must not produce a name either side already uses
+        names_in_use = set(op.sources[0].columns_produced()).union(
+            op.sources[1].columns_produced()
+        )
         if len(on_a) <= 0:
             # no keys (CROSS, or another join type without keys): join on a constant scratch column
-            scratch_col = "_da_join_scratch_key"
-            names_in_use = set(op.sources[0].columns_produced()).union(
-                op.sources[1].columns_produced()
-            )
-            while scratch_col in names_in_use:
-                scratch_col = scratch_col + "_"
+            scratch_col = _unused_column_name("_da_join_scratch_key", names_in_use)
+            names_in_use.add(scratch_col)
             inputs = [d.with_columns(pl.lit(1).alias(scratch_col)) for d in inputs]
             on_a = [scratch_col]
             on_b = [scratch_col]
             if how == "cross":
                 how = "inner"
         if how != "right":
+            right_suffix = _unused_column_suffix(
+                "_da_right_tmp", names_in_use, names_in_use
+            )
             res = inputs[0].join(
                 inputs[1],
                 left_on=on_a,
                 right_on=on_b,
                 how=how,
                 coalesce=False,
-                suffix="_da_right_tmp",
+                suffix=right_suffix,
             )
             if len(coalesce_columns) > 0:
                 res = res.with_columns(
                     [
                         pl.when(pl.col(c).is_null())
-                        .then(pl.col(c + "_da_right_tmp"))
+                        .then(pl.col(c + right_suffix))
                         .otherwise(pl.col(c))
                         .alias(c)
                         for c in coalesce_columns
@@ -1077,20 +1148,23 @@ class PolarsModel(data_algebra.data_model.DataModel):
                 )
         else:
             # simulate right join with left join
+            left_suffix = _unused_column_suffix(
+                "_da_left_tmp", names_in_use, names_in_use
+            )
             res = inputs[1].join(
                 inputs[0],
                 left_on=on_b,
                 right_on=on_a,
                 how="left",
                 coalesce=False,
-                suffix="_da_left_tmp",
+                suffix=left_suffix,
             )
             if len(coalesce_columns) > 0:
                 res = res.with_columns(
                     [
-                        pl.when(pl.col(c + "_da_left_tmp").is_null())
+                        pl.when(pl.col(c + left_suffix).is_null())
                         .then(pl.col(c))
-                        .otherwise(pl.col(c + "_da_left_tmp"))
+                        .otherwise(pl.col(c + left_suffix))
                         .alias(c)
                         for c in coalesce_columns
                     ]
@@ -1215,7 +1289,14 @@ class PolarsModel(data_algebra.data_model.DataModel):
         er = ExpressionRequirementsCollector()
         for opk in op.ops.values():
             opk.act_on(None, expr_walker=er)
-        er.add_in_temp_columns(temp_v_columns)
+        one_column_name = er.add_in_temp_columns(
+            temp_v_columns, names_in_use=set(op.columns_produced())
+        )
+        expr_impl_map = None
+        if one_column_name != _da_temp_one_column_name:
+            expr_impl_map = _populate_expr_impl_map(
+                extend_context=True, one_column_name=one_column_name
+            )
         value_to_send_to_act = None
         if er.collect_required:
             if isinstance(res, pl.LazyFrame):
@@ -1226,7 +1307,9 @@ class PolarsModel(data_algebra.data_model.DataModel):
             res = res.with_columns(temp_v_columns)
         selection = op.expr.act_on(
             value_to_send_to_act,
-            expr_walker=PolarsExpressionActor(polars_model=self, extend_context=True),
+            expr_walker=PolarsExpressionActor(
+                polars_model=self, extend_context=True, expr_impl_map=expr_impl_map
+            ),
         )  # PolarsTerm
         assert isinstance(selection, PolarsTerm)
         res = res.filter(selection.polars_term)
